@@ -97,8 +97,25 @@ fn corrupt(v: &mut Vec<Entry>, i: usize, j: usize, kind: u8, bit: usize) {
             }
         }
         5 => {
-            // non-canonical S: S + l
-            let s = U256::from_le(&v[i].sig[32..].try_into().unwrap()).wrapping_add(&sc::l());
+            // non-canonical S: S + k*l for k = 1..15 (every alias of S below 2^256: each top-bit pattern occurs,
+            // e.g. S + 8l has bit 255 set and bits 252..254 clear - seeded change C13d), or S with one top bit set
+            let s0 = U256::from_le(&v[i].sig[32..].try_into().unwrap());
+            let mut s = s0.wrapping_add(&sc::l());
+            if bit % 5 == 4 {
+                let mut b = s0.to_le();
+                b[31] |= [0x80u8, 0x40, 0x20, 0x10][(bit / 5) % 4];
+                if U256::from_le(&b) >= sc::l() {
+                    s = U256::from_le(&b);
+                }
+            } else {
+                for _ in 0..(bit / 5) % 15 {
+                    let (t, c) = s.add_c(&sc::l());
+                    if c {
+                        break;
+                    }
+                    s = t;
+                }
+            }
             v[i].sig[32..].copy_from_slice(&s.to_le());
         }
         6 => {
